@@ -19,6 +19,7 @@ import (
 	"fmt"
 	"sort"
 	"strings"
+	"time"
 
 	"perkeep.org/pkg/blob"
 
@@ -470,16 +471,20 @@ func (g *gen) smallHistories(n int) {
 	}
 }
 
-// a history long enough for compaction (SmallMetaCountLimit receives and more), restarts in between
+// a history long enough for compaction: SmallMetaCountLimit receives and more (compaction inside a
+// receive), one receive that loses the race against the packer it started (compaction aborted, heap
+// emptied), a restart over more than SmallMetaCountLimit meta blobs (compaction inside the start-up
+// scan), and again; restarts at random points in between
 func (g *gen) compaction(n int, everyPoint bool, label string) {
 	g.begin(label)
-	lateNext := 100 + g.r.R.Intn(2)*101 // one receive that loses the race against the packer
-	forceRestart := 150
-	for i := 1; i <= n; i++ {
+	phase, target := "A", 0
+	for i := 1; i <= n || phase != "E"; i++ {
+		if i > n+400 {
+			break
+		}
 		kind := "recv"
-		if g.sinceComp == 100 && i >= lateNext {
+		if phase == "B" && g.sinceComp == 100 {
 			kind = "recvlate"
-			lateNext = 1 << 30
 			g.r.Hit("recvlate:at-threshold")
 		}
 		g.recv(kind, g.freshData(12+g.r.R.Intn(30)))
@@ -489,12 +494,19 @@ func (g *gen) compaction(n int, everyPoint bool, label string) {
 		if strings.Contains(calls, "M-") {
 			g.r.Hit("compaction:during-receive")
 			g.sinceComp = 1
+			switch phase {
+			case "A":
+				phase = "B"
+			case "D":
+				phase = "E"
+			}
 		} else if kind == "recvlate" {
 			g.sinceComp = 0
 			g.r.Hit("compaction:aborted-by-race")
+			phase, target = "C", i+30+g.r.R.Intn(40)
 		}
 		g.op("sum")
-		if i%25 == 0 || i == n {
+		if i%25 == 0 {
 			g.op("dump")
 		}
 		if everyPoint || i%10 == 0 {
@@ -502,12 +514,10 @@ func (g *gen) compaction(n int, everyPoint bool, label string) {
 		} else {
 			g.leakScan()
 		}
-		if kind == "recvlate" {
-			forceRestart = i + 30 + g.r.R.Intn(40)
-		}
-		if (g.r.R.Intn(40) == 0 || i == forceRestart) && len(g.e.w.meta.m) <= 200 {
-			// (with more than 200 meta blobs the scan starts several packers at once, whose relative
-			// order the harness cannot pin down; the theorems cover those schedules)
+		// (with more than 200 meta blobs the scan starts several packers at once, whose relative order
+		// the harness cannot pin down; the theorems cover those schedules)
+		forced := phase == "C" && i == target
+		if (forced || (phase != "C" && g.r.R.Intn(40) == 0)) && len(g.e.w.meta.m) <= 200 {
 			before := len(g.e.w.meta.m)
 			g.restart([]string{"keep", "wipe"}[g.r.R.Intn(2)], true)
 			calls := g.op("calls")
@@ -516,13 +526,21 @@ func (g *gen) compaction(n int, everyPoint bool, label string) {
 				g.r.Hit("compaction:at-startup")
 				g.r.Distinct(fmt.Sprintf("compaction:at-startup(meta=%d)", before))
 			}
+			if forced {
+				phase = "D"
+			}
 			g.op("sum")
+			g.op("dump")
 			g.pointCheck(true)
 			i2 := 1 + g.r.R.Intn(len(g.e.labels))
 			g.op(fmt.Sprintf("fetch @%d", i2))
 			g.checkFetch(g.e.w, "live", g.e.labels[i2-1], true)
 		}
+		if phase == "E" && i < n {
+			phase = "B" // thorough: go round again
+		}
 	}
+	g.op("dump")
 	g.fetchAll("live")
 	for i := 0; i < 30; i++ {
 		j := g.r.R.Intn(len(g.e.labels))
@@ -783,21 +801,37 @@ func Run(r *hk.Run) {
 		}
 	}()
 	r.Res.Rule = "distinct = (family, shape): small histories by op-kind sequence; every crash prefix of a call log; every (blob, tamper kind, position); every ordered pair of a substitution; every lookalike variant with its outcome; each compaction history by length"
+	t0 := time.Now()
+	lap := func(name string) {
+		r.Note(fmt.Sprintf("family %s: %.1fs", name, time.Since(t0).Seconds()))
+		t0 = time.Now()
+	}
 	g.lookalikes()
 	g.malformed()
+	lap("lookalikes+malformed")
 	if r.Thorough() {
 		g.tamperMatrix([]int{1, 0x80, 0}, 1)
+		lap("tamper-matrix")
 		g.smallHistories(60)
+		lap("small")
 		g.compaction(460, true, "compaction")
+		lap("compaction")
 		g.crashPrefixes(1, true)
+		lap("crash-prefixes")
 		g.compaction(230, false, "compaction-b")
 		g.crashPrefixes(3, false)
+		lap("compaction-b")
 		g.big(10350)
+		lap("big")
 	} else {
 		g.tamperMatrix([]int{1, 0x80}, 1)
+		lap("tamper-matrix")
 		g.smallHistories(12)
+		lap("small")
 		g.compaction(230, true, "compaction")
+		lap("compaction")
 		g.crashPrefixes(1, true)
+		lap("crash-prefixes")
 	}
 	r.Note("secrecy proper (that `0x02 || age(...)` reveals nothing about the plaintext) and the integrity of age/X25519/ChaCha20-Poly1305 are assumed, not checked; the oracle searches the stored bytes and names for plaintext material and tries every listed modification")
 }
